@@ -456,6 +456,10 @@ func (t *c15Trace) exec(line string) bool {
 		t.accepted = true
 	}
 	r.Hit("op/" + fl[0] + "/" + strings.Fields(class)[0])
+	if fl[0] == "maxiter" && fl[1] == "0" && t.shadowOK {
+		t.shadowOK = false // the property quantifies over limits from 1 up; 0 only exercises the model
+		r.Hit("shadow/stopped-at-limit-0")
+	}
 	if t.shadowOK {
 		c2, _ := t.sh.apply(fl, true)
 		if c2 != class {
@@ -590,6 +594,27 @@ func (t *c15Trace) monitors(fl []string, class string, pre c15Snap, preLocks []l
 		}
 	}
 
+	// stream_epoch_bounded: the shares the real CalculateGaugeRewards hands out for one epoch
+	{
+		for _, s := range append(sk.GetActiveStreams(f.Ctx), sk.GetUpcomingStreams(f.Ctx)...) {
+			if len(s.DistributeTo.Records) == 0 || len(s.EpochCoins) == 0 || s.DistributeTo.TotalWeight.IsZero() {
+				continue
+			}
+			sum := sdk.NewCoins()
+			for _, rec := range s.DistributeTo.Records {
+				c, err := sk.CalculateGaugeRewards(f.Ctx, s.EpochCoins, rec, s.DistributeTo.TotalWeight)
+				if err == nil {
+					sum = sum.Add(c...)
+				}
+			}
+			if !sum.IsAllLTE(s.EpochCoins) {
+				t.sharesExceeded = true
+				r.Hit("f8-epoch-shares-exceed")
+				r.Violate("C15/stream_epoch_bounded/epoch-shares-exceed-epoch-coins", fmt.Sprintf("stream %d: gauges' shares of the epoch %s > epoch coins %s", s.Id, sum, s.EpochCoins), t.replay()...)
+			}
+		}
+	}
+
 	// stream_bounded, streamer solvency (as integers: an over-distributed stream counts negatively)
 	owed := map[string]math.Int{}
 	for _, d := range c15Reward {
@@ -621,27 +646,6 @@ func (t *c15Trace) monitors(fl []string, class string, pre c15Snap, preLocks []l
 	for _, d := range c15Reward {
 		if sbal.AmountOf(d).LT(owed[d]) {
 			r.Violate("C15/module_solvent/streamer-balance-below-undistributed/"+t.cause(), fmt.Sprintf("streamer holds %s%s, unfinished streams are owed %s%s", sbal.AmountOf(d), d, owed[d], d), t.replay()...)
-		}
-	}
-
-	// stream_epoch_bounded: the shares the real CalculateGaugeRewards hands out for one epoch
-	if op == "begin" || op == "mkstream" || op == "replace" {
-		for _, s := range act {
-			if len(s.DistributeTo.Records) == 0 || len(s.EpochCoins) == 0 || s.DistributeTo.TotalWeight.IsZero() {
-				continue
-			}
-			sum := sdk.NewCoins()
-			for _, rec := range s.DistributeTo.Records {
-				c, err := sk.CalculateGaugeRewards(f.Ctx, s.EpochCoins, rec, s.DistributeTo.TotalWeight)
-				if err == nil {
-					sum = sum.Add(c...)
-				}
-			}
-			if !sum.IsAllLTE(s.EpochCoins) {
-				t.sharesExceeded = true
-				r.Hit("f8-epoch-shares-exceed")
-				r.Violate("C15/stream_epoch_bounded/epoch-shares-exceed-epoch-coins", fmt.Sprintf("stream %d: gauges' shares of the epoch %s > epoch coins %s", s.Id, sum, s.EpochCoins), t.replay()...)
-			}
 		}
 	}
 
